@@ -38,7 +38,7 @@ theorem parseUsePath_sound (hV : SemverAgree) {st st' : PState} {p : UsePath} (h
   split at h
   · rename_i hk
     simp only [Except.bind_eq_ok, Prod.exists, parsePackagePath_eq_ok] at h
-    obtain ⟨pp, st1, ⟨_, hp, rfl⟩, h2⟩ := h
+    obtain ⟨pp, st1, ⟨hk, hp, rfl⟩, h2⟩ := h
     cases h2
     have hag := pkgPathAt_agree hV (tokAt st) (hwf.shape hk)
     rw [hp] at hag
@@ -46,7 +46,7 @@ theorem parseUsePath_sound (hV : SemverAgree) {st st' : PState} {p : UsePath} (h
     simp [gUsePath, mem_gPackagePath, hk, eraseUsePath, ← hag]
   · rename_i hk
     simp only [Except.bind_eq_ok, Prod.exists, parseIdent_eq_ok] at h
-    obtain ⟨id, st1, ⟨_, rfl, rfl⟩, h2⟩ := h
+    obtain ⟨id, st1, ⟨hk, rfl, rfl⟩, h2⟩ := h
     cases h2
     refine ⟨rfl, len_of_nextTok hk, ?_⟩
     simp [gUsePath, mem_gId, hk, eraseUsePath, erase_identAt]
@@ -78,7 +78,7 @@ theorem list0_sound {α β : Type} (stop : Token) (peeks : List Token) (item : P
     (hitem : ∀ st x st1, item st = .ok (x, st1) → Sound er p 0 st x st1)
     (pf : Nat) (st : PState) (xs : List α) (st3 : PState)
     (hd : parseDelimited stop true peeks item pf st = .ok (xs, st3)) :
-    Suf st3 st ∧ nextTok st3 = some stop ∧
+    Suf st3 st ∧ peekTok st3 = some stop ∧
     ∀ gf, st.toks.length ≤ st3.toks.length + gf → (xs.map er, abs st3) ∈ list0 (p gf) gf (abs st) := by
   obtain ⟨hs3, hp3, hl3⟩ := parseDelimited_struct _ _ _ _
     (fun st x st1 hx => ⟨(hitem st x st1 hx).1, (hitem st x st1 hx).2.1⟩) _ _ _ _ hd
@@ -172,7 +172,7 @@ theorem many_sound {α β : Type} (stop : Token) (peeks : List Token) (item : PS
     (hitem : ∀ st x st1, WF st → item st = .ok (x, st1) → Sound er p 0 st x st1)
     (pf : Nat) (st : PState) (xs : List α) (st3 : PState) (hwf : WF st)
     (hd : parseDelimited stop false peeks item pf st = .ok (xs, st3)) :
-    Suf st3 st ∧ nextTok st3 = some stop ∧
+    Suf st3 st ∧ peekTok st3 = some stop ∧
     ∀ gf, st.toks.length ≤ st3.toks.length + gf → (xs.map er, abs st3) ∈ many (p gf) gf (abs st) := by
   have hInv : ∀ st st', WF st → Suf st' st → WF st' := fun _ _ h hs => h.suf hs
   obtain ⟨hs3, hp3, hl3, _⟩ := parseDelimited_nocommas_sound_inv stop peeks item er (p 0) WF hInv 0
@@ -191,7 +191,7 @@ theorem many_sound {α β : Type} (stop : Token) (peeks : List Token) (item : PS
 theorem interfaceItems_sound (hV : SemverAgree) {pf : Nat} {st st3 : PState} {xs : List InterfaceItem}
     (hwf : WF st)
     (hd : parseDelimited .CloseBrace false interfaceItemPeeks (parseInterfaceItem pf) pf st = .ok (xs, st3)) :
-    Suf st3 st ∧ nextTok st3 = some .CloseBrace ∧
+    Suf st3 st ∧ peekTok st3 = some .CloseBrace ∧
     ∀ gf, st.toks.length ≤ st3.toks.length + gf →
       (xs.map eraseInterfaceItem, abs st3) ∈ many (gInterfaceItem gf) gf (abs st) :=
   many_sound .CloseBrace interfaceItemPeeks (parseInterfaceItem pf) eraseInterfaceItem gInterfaceItem
@@ -253,7 +253,7 @@ theorem parseExternType_sound (hV : SemverAgree) {pf : Nat} {st st' : PState} {x
   split at h
   · rename_i hk
     simp only [Except.bind_eq_ok, Prod.exists, parseIdent_eq_ok] at h
-    obtain ⟨id, st1, ⟨_, rfl, rfl⟩, h2⟩ := h
+    obtain ⟨id, st1, ⟨hk, rfl, rfl⟩, h2⟩ := h
     cases h2
     have l1 := len_of_nextTok hk
     refine ⟨Suf.adv _, by omega, fun gf hgf => ?_⟩
@@ -285,7 +285,7 @@ theorem parseWorldItemPath_sound (hV : SemverAgree) {pf : Nat} {st st' : PState}
   split at h
   · rename_i hk
     simp only [Except.bind_eq_ok, Prod.exists, parsePackagePath_eq_ok] at h
-    obtain ⟨pp, st1, ⟨_, hp, rfl⟩, h2⟩ := h
+    obtain ⟨pp, st1, ⟨hk, hp, rfl⟩, h2⟩ := h
     cases h2
     have hag := pkgPathAt_agree hV (tokAt st) (hwf.shape hk)
     rw [hp] at hag
@@ -300,7 +300,7 @@ theorem parseWorldItemPath_sound (hV : SemverAgree) {pf : Nat} {st st' : PState}
     · rename_i hc
       simp only [peek2Tok_eq, beq_iff_eq] at hc
       simp only [parseNamedWorldItem, Except.bind_eq_ok, Prod.exists, parseToken_eq_ok, parseIdent_eq_ok] at h
-      obtain ⟨n, st1, ⟨id, st2, ⟨_, rfl, rfl⟩, t3, st3, ⟨_, rfl, rfl⟩, ty, st4, hty, h5⟩, h6⟩ := h
+      obtain ⟨n, st1, ⟨id, st2, ⟨hk, rfl, rfl⟩, t3, st3, ⟨hc, rfl, rfl⟩, ty, st4, hty, h5⟩, h6⟩ := h
       cases h5; cases h6
       obtain ⟨hs, hl, hm⟩ := parseExternType_sound hV hwf.adv.adv hty
       have l1 := len_of_nextTok hk
@@ -312,7 +312,7 @@ theorem parseWorldItemPath_sound (hV : SemverAgree) {pf : Nat} {st st' : PState}
       simp [hk, hc, mem_gId, and_assoc, eraseWorldItemPath, eraseNamedWorldItem, erase_identAt]
       exact hm gf (by omega)
     · simp only [Except.bind_eq_ok, Prod.exists, parseIdent_eq_ok] at h
-      obtain ⟨id, st1, ⟨_, rfl, rfl⟩, h2⟩ := h
+      obtain ⟨id, st1, ⟨hk, rfl, rfl⟩, h2⟩ := h
       cases h2
       have l1 := len_of_nextTok hk
       refine ⟨Suf.adv _, by omega, fun gf hgf => ?_⟩
@@ -351,7 +351,7 @@ theorem parseWorldRef_sound (hV : SemverAgree) {st st' : PState} {w : WorldRef} 
   split at h
   · rename_i hk
     simp only [Except.bind_eq_ok, Prod.exists, parsePackagePath_eq_ok] at h
-    obtain ⟨pp, st1, ⟨_, hp, rfl⟩, h2⟩ := h
+    obtain ⟨pp, st1, ⟨hk, hp, rfl⟩, h2⟩ := h
     cases h2
     have hag := pkgPathAt_agree hV (tokAt st) (hwf.shape hk)
     rw [hp] at hag
@@ -359,7 +359,7 @@ theorem parseWorldRef_sound (hV : SemverAgree) {st st' : PState} {w : WorldRef} 
     simp [gWorldRef, mem_gPackagePath, hk, eraseWorldRef, ← hag]
   · rename_i hk
     simp only [Except.bind_eq_ok, Prod.exists, parseIdent_eq_ok] at h
-    obtain ⟨id, st1, ⟨_, rfl, rfl⟩, h2⟩ := h
+    obtain ⟨id, st1, ⟨hk, rfl, rfl⟩, h2⟩ := h
     cases h2
     refine ⟨rfl, len_of_nextTok hk, ?_⟩
     simp [gWorldRef, mem_gId, hk, eraseWorldRef, erase_identAt]
@@ -574,7 +574,7 @@ theorem parseImportType_sound (hV : SemverAgree) {pf : Nat} {st st' : PState} {x
     simp [eraseImportType, hm gf hgf]
   · rename_i hk
     simp only [Except.bind_eq_ok, Prod.exists, parsePackagePath_eq_ok] at h
-    obtain ⟨pp, st1, ⟨_, hp, rfl⟩, h2⟩ := h
+    obtain ⟨pp, st1, ⟨hk, hp, rfl⟩, h2⟩ := h
     cases h2
     have hag := pkgPathAt_agree hV (tokAt st) (hwf.shape hk)
     rw [hp] at hag
@@ -585,7 +585,7 @@ theorem parseImportType_sound (hV : SemverAgree) {pf : Nat} {st st' : PState} {x
     simp [mem_gPackagePath, hk, eraseImportType, ← hag]
   · rename_i hk
     simp only [Except.bind_eq_ok, Prod.exists, parseIdent_eq_ok] at h
-    obtain ⟨id, st1, ⟨_, rfl, rfl⟩, h2⟩ := h
+    obtain ⟨id, st1, ⟨hk, rfl, rfl⟩, h2⟩ := h
     cases h2
     have l1 := len_of_nextTok hk
     refine ⟨Suf.adv _, by omega, fun gf hgf => ?_⟩
